@@ -533,3 +533,17 @@ def parent_map(root):
         for c in ast.iter_child_nodes(p):
             pm[c] = p
     return pm
+
+
+def path_condition(pm, node, stop=None):
+    """[(test, polarity)] of the `if` statements enclosing `node` (innermost last), using a parent map"""
+    out = []
+    child, p = node, pm.get(node)
+    while p is not None and p is not stop:
+        if isinstance(p, ast.If):
+            if any(child is x for x in p.body):
+                out.append((p.test, True))
+            elif any(child is x for x in p.orelse):
+                out.append((p.test, False))
+        child, p = p, pm.get(p)
+    return list(reversed(out))
